@@ -93,6 +93,7 @@ InitS(off) ==
      idx   |-> [c \in Callers |-> 0],
      res   |-> [c \in Callers |-> [st |-> "none", v |-> NoF]],
      conn  |-> [c \in Callers |-> [o |-> "none", tr |-> 0]],
+     rtx   |-> [c \in Callers |-> 0],
      retry |-> 0, cur |-> 0,
      held  |-> FALSE, lq |-> <<>>, lw |-> FALSE,
      timer |-> 0, timers |-> {[id |-> c, at |-> off[c], k |-> "sleep", c |-> c] : c \in Callers},
@@ -197,7 +198,8 @@ Inject(X, r, f) ==
 Transmit(X, c, f) ==
     LET st == X.s
         r == Req(c, st.idx[c])
-        X1 == [X EXCEPT !.s.cur = c, !.s.res[c] = Pending, !.s.pb = NoF, !.s.pc[c] = "wait", !.uf = TRUE]
+        X1 == [X EXCEPT !.s.cur = c, !.s.res[c] = Pending, !.s.pb = NoF, !.s.pc[c] = "wait", !.uf = TRUE,
+                        !.s.rtx[c] = @ + 1]
         X2 == IF st.tr \in st.open
               THEN Inject(Emit([X1 EXCEPT !.s.ntx = @ + 1],
                                [Ev("SEND") EXCEPT !.tr = st.tr, !.f = Fr("req", r, st.ntx)]), r, f)
@@ -282,7 +284,7 @@ OnConnError(X, c, f, o, g) ==
 TaskStep(X, c, f, o, g) ==
     LET st == X.s pc == st.pc[c] IN
     CASE pc = "idle" ->
-           LET X1 == Emit([X EXCEPT !.s.idx[c] = @ + 1], [Ev("CALL") EXCEPT !.r = Req(c, st.idx[c] + 1)])
+           LET X1 == Emit([X EXCEPT !.s.idx[c] = @ + 1, !.s.rtx[c] = 0], [Ev("CALL") EXCEPT !.r = Req(c, st.idx[c] + 1)])
            IN Acquire(X1, c, f, o)
       [] pc = "acq" ->
            Connect([X EXCEPT !.s.lq = Tail(@), !.s.lw = FALSE, !.s.held = TRUE], c, f, o)
@@ -291,7 +293,8 @@ TaskStep(X, c, f, o, g) ==
       [] pc = "conn" ->
            LET cn == st.conn[c] IN
            IF cn.o = "ok" THEN Transmit([X EXCEPT !.s.tr = cn.tr], c, f)
-           ELSE LET X1 == Emit(X, [Ev("CONNFAIL") EXCEPT !.why = cn.o]) IN
+           ELSE LET X1 == IF cn.o = "hang" THEN X      \* the guard timer fired: nothing observable happens on the network
+                          ELSE Emit(X, [Ev("CONNFAIL") EXCEPT !.why = cn.o]) IN
                 IF Kind = "udp"
                 THEN Finish([X1 EXCEPT !.s.res[c] = [st |-> "oserr", v |-> Fr("err", 0, 101)]], c, g)
                 ELSE OnConnError(X1, c, f, o, g)
